@@ -39,13 +39,15 @@ package lexerql
 // token class follows the unit: byte-size suffixes give Bytes, time suffixes give Duration.
 //@ func ScanUnit
 //@   capture tl = call(strings.ToLower, 0)
+//@   capture pd = call(ParseDuration, 0)
 //@   modifies scanRemaining(s)
 //@   ensures[input-never-grows] scanRemaining(s) <= old(scanRemaining(s))
 //@   ensures[plain-number] !tl_called && ret1 == nil ==> ret0.Type == Number && ret0.Text == prefix
 //@   ensures[byte-size-suffixes] ret1 == nil && ret0.Type == Bytes ==> tl_called && (tl_r0 == "b" || tl_r0 == "kib" || tl_r0 == "kb" || tl_r0 == "mib" || tl_r0 == "mb" || tl_r0 == "gib" || tl_r0 == "gb" ||
 //@       tl_r0 == "tib" || tl_r0 == "tb" || tl_r0 == "pib" || tl_r0 == "pb" || tl_r0 == "eib" || tl_r0 == "eb" || tl_r0 == "ki" || tl_r0 == "k" || tl_r0 == "mi" || tl_r0 == "gi" || tl_r0 == "g" ||
 //@       tl_r0 == "ti" || tl_r0 == "t" || tl_r0 == "pi" || tl_r0 == "p" || tl_r0 == "ei" || tl_r0 == "e")
-//@   ensures[time-suffixes] ret1 == nil && ret0.Type == Duration ==> tl_called && (tl_r0 == "ns" || tl_r0 == "us" || tl_r0 == "µs" || tl_r0 == "μs" || tl_r0 == "ms" || tl_r0 == "s" || tl_r0 == "m" || tl_r0 == "h" || tl_r0 == "d" || tl_r0 == "w")
+//@   ensures[time-suffixes] ret1 == nil && ret0.Type == Duration ==> tl_called && (tl_r0 == "ns" || tl_r0 == "us" || tl_r0 == "µs" || tl_r0 == "μs" || tl_r0 == "ms" || tl_r0 == "s" || tl_r0 == "m" || tl_r0 == "h" || tl_r0 == "d" || tl_r0 == "w" || tl_r0 == "y")
+//@   ensures[every-unit-of-a-duration-gives-a-duration] tl_called && (tl_r0 == "ns" || tl_r0 == "us" || tl_r0 == "µs" || tl_r0 == "μs" || tl_r0 == "ms" || tl_r0 == "s" || tl_r0 == "m" || tl_r0 == "h" || tl_r0 == "d" || tl_r0 == "w" || tl_r0 == "y") ==> pd_called && ret1 == pd_r1 && (ret1 == nil ==> ret0.Type == Duration)
 //@   ensures[three-classes] ret1 == nil ==> ret0.Type == Number || ret0.Type == Bytes || ret0.Type == Duration
 //@   loop 0 modifies sb.*, scanRemaining(s)
 //@   loop 0 invariant suffixStart <= len(builderContent(&sb)) && 0 <= suffixStart && scanRemaining(s) <= old(scanRemaining(s))
